@@ -2058,6 +2058,8 @@ impl<T: Transport, E: UtpEnvironment> UtpStreamStarter<T, E> {
         );
 
         let stream = UtpStream::new(read_half, write_half, vsock.remote);
+        #[cfg(librqbit_utp_verif)]
+        let stream = stream.verif_set_cid(conn_id_recv.0);
         UtpStreamStarter {
             stream,
             vsock,
